@@ -814,6 +814,67 @@ example : (recommendFault findLinear ⟨0, false, false⟩ (exSt 77 0 5) (exReq 
       some ([104, 10] ++ (formatComment ⟨0, false, false⟩ (exReq 77 1)).take 4) := by
   decide +kernel
 
+/-! #### one request, at most one line — whatever happened to the index in between -/
+
+/-- **request_at_most_one_line**: phase B on ANY state — in particular on an index that another tool rewrote
+after the commenter's lookup (entries moved, index shorter than the held position) — leaves every article as
+it was or, for the one article named in the commenter's copy, extended by exactly its line.  A request is one
+phase A (which writes nothing) and one phase B: it appends at most one line, whatever it then reports. -/
+theorem request_at_most_one_line (st : St) (t : Ticket) (n old : Bytes) (h : fileGet st.files n = some old) :
+    fileGet (phaseB st t).1.files n = some old ∨
+    (n = cstr (field t.copy offFilename lenFilename) ∧ fileGet (phaseB st t).1.files n = some (old ++ t.line)) := by
+  unfold phaseB phaseWrite
+  simp only []
+  cases hf : fileGet st.files (cstr (field t.copy offFilename lenFilename)) with
+  | none => left; exact h
+  | some oldm =>
+    simp only []
+    rw [(phaseIndex_cases _ t).1]
+    by_cases hn : n = cstr (field t.copy offFilename lenFilename)
+    · right
+      subst hn
+      rw [hf] at h; injection h with h; subst h
+      exact ⟨rfl, fileGet_fileSet_same _ _ _ _ hf⟩
+    · left
+      show fileGet (fileSet st.files _ _) n = some old
+      rw [fileGet_fileSet_other _ _ _ _ hn, h]
+
+/-- what the code does when the held position is stale (ModifyDirLite answers ErrInvalidIdx): the error is
+returned AFTER the append, the line stays in the article, the index is not touched. -/
+theorem stale_position_line_stays (st : St) (t : Ticket) (old : Bytes)
+    (hf : fileGet st.files (cstr (field t.copy offFilename lenFilename)) = some old)
+    (he : (phaseB st t).2 = .idxErr) :
+    (phaseB st t).1.dir = st.dir ∧
+    fileGet (phaseB st t).1.files (cstr (field t.copy offFilename lenFilename)) = some (old ++ t.line) := by
+  have hone := request_at_most_one_line st t _ old hf
+  unfold phaseB phaseWrite at he hone ⊢
+  simp only [hf] at he hone ⊢
+  have hc := phaseIndex_cases { st with files := fileSet st.files (cstr (field t.copy offFilename lenFilename)) (old ++ t.line) } t
+  refine ⟨hc.2.2.1 (Or.inl (by rw [he]; rfl)), ?_⟩
+  rw [hc.1]
+  exact fileGet_fileSet_same _ _ _ _ hf
+
+/-- a second entry (another time stamp) in front of the example entry. -/
+def exRecB : Bytes := (exRec 77 0 3).set 11 49
+def exSt2 : St := ⟨⟨true, exRecB ++ exRec 77 0 5⟩, [((exName 77).take 18, [104, 10])]⟩
+
+/-- **retry_after_stale_position_doubles** (the rule of seeded change C10-r5-1): the commenter looked its
+entry up at position 2, the first entry expired, the index update is refused (stale position) with the line
+already in the article; running the request AGAIN, as a caller that treats that error as "nothing happened
+yet" does, is accepted and puts the same line into the article a second time. -/
+theorem retry_after_stale_position_doubles :
+    let cfg : Cfg := ⟨0, false, true⟩
+    let q := exReq 77 1
+    ∃ t, phaseA findLinear cfg exSt2 q = .ok t ∧ t.idx = 2 ∧
+      let rewritten : St := { exSt2 with dir := ⟨true, exRec 77 0 5⟩ }
+      (phaseB rewritten t).2 = .idxErr ∧
+      fileGet (phaseB rewritten t).1.files ((exName 77).take 18) = some ([104, 10] ++ formatComment cfg q) ∧
+      (recommend findLinear cfg (phaseB rewritten t).1 q).2 = .ok (formatComment cfg q) 1 ∧
+      fileGet (recommend findLinear cfg (phaseB rewritten t).1 q).1.files ((exName 77).take 18) =
+        some ([104, 10] ++ formatComment cfg q ++ formatComment cfg q) := by
+  refine ⟨{ idx := 2, copy := exRec 77 0 5, line := formatComment ⟨0, false, true⟩ (exReq 77 1), ctype := 1, mtime := 77 }, ?_⟩
+  decide +kernel
+
 /-- the sequential comment is the special case "phase A, write, index" with nothing in between. -/
 theorem sequential_is_interleaving (find : Bytes → Nat → Bytes → Option Nat) (cfg : Cfg) (st : St) (q : Req) :
     recommend find cfg st q =
